@@ -164,7 +164,13 @@ def check_stage(chk, c, f, xp, stage, data, drv, tol, sig, case):
     fin = np.isfinite(lo) & np.isfinite(hi)       # one-sided and whole-line ranges are not mapped to the real line: no claim about their draws
     if c["bounded"] != "off":
         u = (x[:, fin] - lo[fin]) / (hi[fin] - lo[fin])
-        interior = np.all((u > 4 * EPS) & (u < 1 - 4 * EPS), axis=1)      # outside the documented clipping margin
+        # outside the documented clipping margin - and, in single precision, far enough from a bound that rounding the DRAW to float32 (one
+        # ulp of a coordinate of size max|bound|, in units of the width) does not itself move the density: a narrow interval away from the
+        # origin ([100, 100.5]) resolves the unit coordinate to 1.5e-5 only, and the bounded maps amplify that by 1 / min(u, 1 - u)
+        margin = np.full(int(fin.sum()), 4 * EPS)
+        if c["dtype"] == "float32":
+            margin = np.maximum(margin, 256 * 2.0 ** -23 * np.maximum(np.abs(lo[fin]), np.abs(hi[fin])) / (hi[fin] - lo[fin]))
+        interior = np.all((u > margin) & (u < 1 - margin), axis=1)
         if np.any(x[:, fin] < lo[fin]) or np.any(x[:, fin] > hi[fin]):
             chk.fail("draws respect the declared finite bounds", case, f"{int(np.sum((x[:, fin] < lo[fin]) | (x[:, fin] > hi[fin])))} coordinates outside the bounds ({stage})", {**sig, "clause": "bounds"})
         if not fin.all():
